@@ -18,6 +18,7 @@ pub enum DisconnectReason {
 }
 
 #[derive(Debug, PartialEq, Eq)]
+#[cfg_attr(feature = "verif", derive(Clone))]
 enum ClientState {
     Disconnected(DisconnectReason),
     SendingConnectionRequest,
@@ -49,6 +50,7 @@ pub enum ClientAuthentication {
 /// The client is agnostic from the transport layer, only consuming and generating bytes
 /// that can be transported in any way desired.
 #[derive(Debug)]
+#[cfg_attr(feature = "verif", derive(Clone))]
 pub struct NetcodeClient {
     state: ClientState,
     client_id: u64,
@@ -371,6 +373,40 @@ impl NetcodeClient {
                 Some((&mut self.out[..encoded], self.server_addr))
             }
         }
+    }
+}
+
+#[cfg(feature = "verif")]
+impl NetcodeClient {
+    /// Verification hook: read-only view of the client state.
+    pub fn verif_snapshot(&self) -> crate::verif::ClientSnapshot {
+        use crate::verif::*;
+        let state = match self.state {
+            ClientState::Disconnected(reason) => ClientStateSnapshot::Disconnected(reason),
+            ClientState::SendingConnectionRequest => ClientStateSnapshot::SendingConnectionRequest,
+            ClientState::SendingConnectionResponse => ClientStateSnapshot::SendingConnectionResponse,
+            ClientState::Connected => ClientStateSnapshot::Connected,
+        };
+        ClientSnapshot {
+            state,
+            client_id: self.client_id,
+            connect_start_time: self.connect_start_time,
+            last_packet_send_time: self.last_packet_send_time,
+            last_packet_received_time: self.last_packet_received_time,
+            current_time: self.current_time,
+            sequence: self.sequence,
+            server_addr: self.server_addr,
+            server_addr_index: self.server_addr_index,
+            challenge_token_sequence: self.challenge_token_sequence,
+            max_clients: self.max_clients,
+            client_index: self.client_index,
+            replay_most_recent_sequence: self.replay_protection.verif_most_recent_sequence(),
+        }
+    }
+
+    /// Verification hook: start the send sequence counter at a chosen value (sequence length classes).
+    pub fn verif_set_sequence(&mut self, sequence: u64) {
+        self.sequence = sequence;
     }
 }
 
